@@ -409,7 +409,7 @@ def run(ctx):
     outs, pending, crashes = [], list(cases), 0
     cases = []
     while pending:
-        got = run_driver(ctx, "C04", "\n".join(to_input(c) for c in pending) + "\n")
+        got = run_driver(ctx, "C04", [(to_input(c)) + "\n" for c in pending])
         if got is None:
             return
         outs += got[:len(pending)]; cases += pending[:len(got)]
